@@ -127,8 +127,11 @@ Definition nni_undo_heap (q : hnni) (h : heap) : hres heap :=
   do n1index <- node_index_msg h n11node n1 "Cannot apply NNI with unconnected nodes n2_1 n1";
   do e1 <- br_at h n1 n11index;
   do e2 <- br_at h n2 n12index;
+  do ed1 <- get_edge h e1;
   do ed2 <- get_edge h e2;
-  do h <- (if Nat.eqb (hright ed2) n2 then
+  (* since the fix "NNI Undo left the central branch wrongly oriented when the tree had been
+     re-rooted into the clade moved by Apply": e2.Right() == n2 || e1.Right() == n1 *)
+  do h <- (if Nat.eqb (hright ed2) n2 || Nat.eqb (hright ed1) n1 then
              match n1n2index with
              | Some i => do ec <- br_at h n1 i; do edc <- get_edge h ec; HOk (set_edge h ec (flip edc))
              | None => HPanic
